@@ -36,7 +36,7 @@ def gen_cases(tier, seed):
     for _ in range(60 if quick else 400):
         variant = rng.choice(["wcv", "wcvp"])
         n = rng.choice(sizes)
-        nd = rng.choice([-3000, 0, 32767, 255])
+        nd = rng.choice([-3000, 0, 32767, 255, 16777217, -16777219])      # the last two: finite, exact in float64, not in float32
         y = gaps(rng, series(rng, n, rng.choice(["noise", "season", "steps"])), nd, rng.choice([0.0, 0.1, 0.3]))
         c = {"variant": variant, "y": [str(v) for v in y], "nd": str(nd), "grid": grid(), "robust": rng.random() < 0.35, "api": rng.choice(["kernel", "kernel", "accessor"])}
         if variant == "wcvp":
